@@ -143,4 +143,35 @@ structure QuotientOf (a : Arch) (lim : Option Nat) (g : PGraph Str) : Prop where
   preds : ∀ s x, x ∈ g.importPreds s ↔
     ∃ e ∈ a.imports, trunc lim e.1 ≠ trunc lim e.2 ∧ x = render (trunc lim e.1) ∧ s = render (trunc lim e.2)
 
+
+/-! ### graphs with the same node and edge sets; renamings of path components -/
+
+structure GraphEquiv (g g' : PGraph Str) : Prop where
+  nodes : ∀ s, s ∈ g.nodes ↔ s ∈ g'.nodes
+  hier : ∀ s x, x ∈ g.hierChildren s ↔ x ∈ g'.hierChildren s
+  succs : ∀ s x, x ∈ g.importSuccs s ↔ x ∈ g'.importSuccs s
+  preds : ∀ s x, x ∈ g.importPreds s ↔ x ∈ g'.importPreds s
+
+/-- renaming of path components, lifted to names, architectures and rules -/
+def renName (ρ : Comp → Comp) (n : Name) : Name := n.map ρ
+
+def renArch (ρ : Comp → Comp) (a : Arch) : Arch :=
+  { nodes := a.nodes.map (renName ρ), imports := a.imports.map fun e => (renName ρ e.1, renName ρ e.2) }
+
+def renFilter (ρ : Comp → Comp) : SFilter → SFilter
+  | .named x => .named (renName ρ x)
+  | .subOf x => .subOf (renName ρ x)
+
+def renRule (ρ : Comp → Comp) (r : RuleSpec) : RuleSpec :=
+  { r with subjects := r.subjects.map (renFilter ρ), objects := r.objects.map (renFilter ρ) }
+
+def renSItem (ρ : Comp → Comp) : SItem → SItem
+  | .imp u v => .imp (renName ρ u) (renName ρ v)
+  | .miss any s os => .miss any (renFilter ρ s) (os.map (renFilter ρ))
+
+/-- an admissible renaming: injective on components and preserving "non-empty, dot-free" -/
+structure GoodRen (ρ : Comp → Comp) : Prop where
+  inj : ∀ c d, ρ c = ρ d → c = d
+  wf : ∀ c, compWF c = true → compWF (ρ c) = true
+
 end Pta
